@@ -263,7 +263,7 @@ macro_rules! first_len {
 #[kani::unwind(6)]
 fn tq_iter_accessors() {
     let (mut c, pre) = any_tq();
-    kani::cover!(pre.recent.n > 0 && pre.frequent.n > 0 && pre.ghost.n > 0, "2q iterators: all queues populated");
+    kani::cover!(pre.recent.n > 0 && pre.frequent.n > 0 && pre.ghost.n > 0, "2q iterators: all queues populated [N>=2]");
     let kv = |p: (&u8, &u8)| (*p.0, *p.1);
     let kvm = |p: (&u8, &mut u8)| (*p.0, *p.1);
     let lists: [(&Abs, u8); 3] = [(&pre.recent, 0), (&pre.frequent, 1), (&pre.ghost, 2)];
@@ -316,7 +316,7 @@ fn tq_builder_sound() {
 #[kani::unwind(8)]
 fn tq_drop() {
     let (c, a) = any_tq();
-    kani::cover!(a.recent.n > 0 && a.frequent.n > 0 && a.ghost.n > 0, "2q drop: all queues populated");
+    kani::cover!(a.recent.n > 0 && a.frequent.n > 0 && a.ghost.n > 0, "2q drop: all queues populated [N>=2]");
     drop(c);
 }
 
